@@ -4,6 +4,7 @@ import json
 
 from . import core
 from . import structworld as W
+from . import struct_api_gen as api
 from .impl import mx, close_all, quiet, err_kind
 
 
@@ -761,8 +762,12 @@ def run_one(ops, out, stats, hooks, cfg, rng=None, n_ops=0, seed_ops=None, gen=N
             stats["op:" + op[0]] += 1
             if r.startswith("err") and op[0] != "eval":
                 stats["rejected:" + op[0]] += 1
+            n_fail = len(out.failures)
             ok, _ = observe(out, lambda: hist_json(ops, k), "after %s (%s)" % (op[0], r.split(" ")[0]),
                             hooks.after, live, ops, k, op, r, out, stats)
+            if api.assign_keys(out, n_fail, live, op, r):
+                broken = True       # an instance of a known finding: what follows would only report it again
+                break
             if not ok:
                 broken = True
                 break
